@@ -42,12 +42,48 @@ Definition same_shape (a b : tyh) : bool :=
   | _, _ => false
   end.
 
+(* types whose shape determines them (the leaves of monomorphic types) *)
+Definition rigid (h : tyh) : bool :=
+  match h with HVoid | HNil | HInt | HFloat | HBool | HStr | HTy | HInvalid => true | _ => false end.
+
+(* known types with components *)
+Definition inner (h : tyh) : bool := negb (is_unknown h) && negb (rigid h).
+
+(* the components of a type: parameter n / the result of a function type, element n of a tuple, the element
+   type of a list, field / variant k of a blob / an enum *)
+Inductive sel := KArg (n : nat) | KRes | KElem (n : nat) | KItem | KField (k : string).
+
+Definition kid (h : tyh) (x : sel) : option tyid :=
+  match h, x with
+  | HFn ps _ _, KArg n => nth_error ps n
+  | HFn _ r _, KRes => Some r
+  | HTuple ts, KElem n => nth_error ts n
+  | HList t, KItem => Some t
+  | HBlob _ _ fs _, KField k | HEnum _ _ fs _, KField k => option_map snd (flookup k fs)
+  | _, _ => None
+  end.
+
+(* two classes that are one class, or that both have components: what `sub_unify` guarantees of a pair it has
+   been called with, also when it returned early because the pair was in `seen` *)
+Definition pair_ok (s : st) (x y : tyid) : Prop :=
+  x = y \/
+  (exists r, rep s x = Some r /\ rep s y = Some r) \/
+  (exists hx hy, head s x = Some hx /\ head s y = Some hy /\ inner hx = true /\ inner hy = true).
+
+(* the components of a class stay, position by position, in the classes of the components it had before,
+   whatever the class is merged with ("ext keeps shapes" one level down; a component whose type is a leaf keeps
+   that type: kid_keep) *)
+Definition kids_keep (s s' : st) : Prop :=
+  forall i h h' x c c',
+    head s i = Some h -> head s' i = Some h' -> kid h x = Some c -> kid h' x = Some c' -> pair_ok s' c c'.
+
 Definition ext (s s' : st) : Prop :=
   (next s <= next s') /\
   (forall i n, lk s i = Some n -> exists n', lk s' i = Some n') /\
   (forall i j r, rep s i = Some r -> rep s j = Some r -> exists r', rep s' i = Some r' /\ rep s' j = Some r') /\
   (forall i h, head s i = Some h -> is_unknown h = false ->
-               exists h', head s' i = Some h' /\ same_shape h h' = true).
+               exists h', head s' i = Some h' /\ same_shape h h' = true) /\
+  kids_keep s s'.
 
 Definition pres {A} (m : M A) : Prop :=
   forall s a s', wf s -> m s = Ok (a, s') -> wf s' /\ ext s s'.
@@ -115,7 +151,101 @@ Proof. destruct b; cbn; congruence. Qed.
 Lemma same_shape_known a b : same_shape a b = true -> is_unknown a = false -> is_unknown b = false.
 Proof. destruct a, b; cbn; congruence. Qed.
 
+Lemma rigid_shape h h' : rigid h = true -> same_shape h h' = true -> h' = h.
+Proof. destruct h; try discriminate; destruct h'; try discriminate; reflexivity. Qed.
+
+Lemma rigid_known h : rigid h = true -> is_unknown h = false.
+Proof. destruct h; try discriminate; reflexivity. Qed.
+
+Lemma inner_shape h h' : same_shape h h' = true -> inner h = true -> inner h' = true.
+Proof. destruct h; try discriminate; destruct h'; try discriminate; auto. Qed.
+
+Lemma inner_known h : inner h = true -> is_unknown h = false.
+Proof. destruct h; try discriminate; reflexivity. Qed.
+
+Lemma inner_not_rigid h : inner h = true -> rigid h = true -> False.
+Proof. destruct h; discriminate. Qed.
+
+Lemma kid_known h x c : kid h x = Some c -> is_unknown h = false.
+Proof. destruct h; try discriminate; reflexivity. Qed.
+
+Lemma nth_error_same_length {A B} (l : list A) (l' : list B) n a :
+  length l = length l' -> nth_error l n = Some a -> exists b, nth_error l' n = Some b.
+Proof.
+  intros E H. destruct (nth_error l' n) as [b|] eqn:E'; [eauto|].
+  apply nth_error_None in E'. assert (n < length l)%nat by (apply nth_error_Some; congruence). lia.
+Qed.
+
+Lemma flookup_keys_sub (f g : fieldmap) k v :
+  keys_sub f g = true -> flookup k f = Some v -> exists v', flookup k g = Some v'.
+Proof.
+  intros S H. assert (F : fmem k f = true) by (unfold fmem; rewrite H; reflexivity).
+  apply fmem_In in F. rewrite keys_sub_spec in S. apply S in F. apply fmem_In in F.
+  unfold fmem in F. destruct (flookup k g); [eauto|discriminate].
+Qed.
+
+(* types of the same shape have the same components *)
+Lemma kid_shape h h' x c : same_shape h h' = true -> kid h x = Some c -> exists c', kid h' x = Some c'.
+Proof.
+  intros S H. destruct h; try discriminate H; destruct h'; try discriminate S; destruct x; try discriminate H;
+    cbn [kid same_shape] in *.
+  - apply PeanoNat.Nat.eqb_eq in S. eapply nth_error_same_length; eassumption.
+  - eauto.
+  - apply PeanoNat.Nat.eqb_eq in S. eapply nth_error_same_length; eassumption.
+  - eauto.
+  - apply andb_true_iff in S as [S _]. destruct (flookup k fields) as [v|] eqn:E; [|discriminate].
+    destruct (flookup_keys_sub _ _ _ _ S E) as [v' ->]. cbn. eauto.
+  - apply andb_true_iff in S as [S _]. destruct (flookup k variants) as [v|] eqn:E; [|discriminate].
+    destruct (flookup_keys_sub _ _ _ _ S E) as [v' ->]. cbn. eauto.
+Qed.
+
 (* ------------------------------------------------------------------ ext is a preorder *)
+
+Lemma same_rep_same_head s a b q : rep s a = Some q -> rep s b = Some q -> head s a = head s b.
+Proof.
+  unfold rep, head. destruct (lk s a) as [x|]; [|discriminate]. destruct (lk s b) as [y|]; [|discriminate].
+  cbn. intros [= ->] [= ->]. reflexivity.
+Qed.
+
+Lemma pair_ok_refl s x : pair_ok s x x.
+Proof. left. reflexivity. Qed.
+
+Lemma pair_ok_sym s x y : pair_ok s x y -> pair_ok s y x.
+Proof. intros [->|[(r & ? & ?)|(hx & hy & ? & ? & ? & ?)]]; [left; reflexivity|right; left|right; right]; eauto 8. Qed.
+
+Lemma pair_ok_trans s x y z : pair_ok s x y -> pair_ok s y z -> pair_ok s x z.
+Proof.
+  intros [->|[(r & Hx & Hy)|(hx & hy & Hx & Hy & Ix & Iy)]] H; [assumption| |].
+  - destruct H as [<-|[(r' & Hy' & Hz)|(hy & hz & Hy' & Hz & Iy & Iz)]].
+    + right; left; eauto.
+    + right; left. exists r. split; [assumption|congruence].
+    + right; right. exists hy, hz. rewrite (same_rep_same_head _ _ _ _ Hx Hy). auto.
+  - destruct H as [<-|[(r' & Hy' & Hz)|(hy' & hz & Hy' & Hz & Iy' & Iz)]].
+    + right; right; eauto 8.
+    + right; right. exists hx, hy. rewrite <- (same_rep_same_head _ _ _ _ Hy' Hz). auto.
+    + right; right. exists hx, hz. auto.
+Qed.
+
+Lemma pair_ok_ext0 s s' x y :
+  (forall i j r, rep s i = Some r -> rep s j = Some r -> exists r', rep s' i = Some r' /\ rep s' j = Some r') ->
+  (forall i h, head s i = Some h -> is_unknown h = false -> exists h', head s' i = Some h' /\ same_shape h h' = true) ->
+  pair_ok s x y -> pair_ok s' x y.
+Proof.
+  intros E3 E4 [->|[(r & Hx & Hy)|(hx & hy & Hx & Hy & Ix & Iy)]].
+  - left. reflexivity.
+  - right; left. destruct (E3 _ _ _ Hx Hy) as (r' & ? & ?). eauto.
+  - right; right. destruct (E4 _ _ Hx (inner_known _ Ix)) as (hx' & Hx' & Sx).
+    destruct (E4 _ _ Hy (inner_known _ Iy)) as (hy' & Hy' & Sy).
+    exists hx', hy'. split; [assumption|]. split; [assumption|]. split; eapply inner_shape; eassumption.
+Qed.
+
+Lemma pair_ok_rigid s x y t : pair_ok s x y -> head s x = Some t -> rigid t = true -> head s y = Some t.
+Proof.
+  intros [->|[(r & Hx & Hy)|(hx & hy & Hx & Hy & Ix & Iy)]] H R.
+  - assumption.
+  - rewrite <- (same_rep_same_head _ _ _ _ Hx Hy). assumption.
+  - rewrite Hx in H. injection H as ->. exfalso. exact (inner_not_rigid _ Ix R).
+Qed.
 
 Lemma ext_refl s : ext s s.
 Proof.
@@ -124,18 +254,50 @@ Proof.
   - eauto.
   - eauto.
   - intros i h H _. exists h. split; [assumption|apply same_shape_refl].
+  - intros i h h' x c c' H H' K K'. rewrite H in H'. injection H' as <-. rewrite K in K'. injection K' as <-.
+    apply pair_ok_refl.
 Qed.
 
 Lemma ext_trans s1 s2 s3 : ext s1 s2 -> ext s2 s3 -> ext s1 s3.
 Proof.
-  intros (A1 & A2 & A3 & A4) (B1 & B2 & B3 & B4). repeat split.
+  intros (A1 & A2 & A3 & A4 & A5) (B1 & B2 & B3 & B4 & B5). repeat split.
   - lia.
   - intros i n H. destruct (A2 _ _ H) as [n' H']. eauto.
   - intros i j r Hi Hj. destruct (A3 _ _ _ Hi Hj) as (r' & Hi' & Hj'). eauto.
   - intros i h H U. destruct (A4 _ _ H U) as (h' & H' & S').
     destruct (B4 _ _ H' (same_shape_known _ _ S' U)) as (h'' & H'' & S'').
     exists h''. split; [assumption|eapply same_shape_trans; eauto].
+  - intros i h h3 x c c3 H H3 K K3.
+    destruct (A4 _ _ H (kid_known _ _ _ K)) as (h2 & H2 & S2).
+    destruct (kid_shape _ _ _ _ S2 K) as [c2 K2].
+    apply (pair_ok_trans _ _ c2).
+    + apply (pair_ok_ext0 s2 s3 _ _ B3 B4). exact (A5 i h h2 x c c2 H H2 K K2).
+    + exact (B5 i h2 h3 x c2 c3 H2 H3 K2 K3).
 Qed.
+
+(* a leaf type never changes *)
+Lemma head_keep s s' i t : ext s s' -> head s i = Some t -> rigid t = true -> head s' i = Some t.
+Proof.
+  intros (_ & _ & _ & E4 & _) H R. destruct (E4 _ _ H (rigid_known _ R)) as (h' & H' & S).
+  rewrite (rigid_shape _ _ R S) in H'. assumption.
+Qed.
+
+(* a component whose type is a leaf keeps that type, at the same position *)
+Lemma kid_keep s s' i h h' x c c' t :
+  ext s s' -> head s i = Some h -> head s' i = Some h' -> kid h x = Some c -> kid h' x = Some c' ->
+  head s c = Some t -> rigid t = true -> head s' c' = Some t.
+Proof.
+  intros E H H' K K' Hc R. pose proof (head_keep _ _ _ _ E Hc R) as Hc'.
+  destruct E as (_ & _ & _ & _ & E5). exact (pair_ok_rigid _ _ _ _ (E5 _ _ _ _ _ _ H H' K K') Hc' R).
+Qed.
+
+Definition seen_ok (seen : seenset) (s : st) : Prop := forall x y, In (x, y) seen -> pair_ok s x y.
+
+Lemma pair_ok_ext s s' x y : ext s s' -> pair_ok s x y -> pair_ok s' x y.
+Proof. intros (_ & _ & E3 & E4 & _). now apply pair_ok_ext0. Qed.
+
+Lemma seen_ok_ext seen s s' : ext s s' -> seen_ok seen s -> seen_ok seen s'.
+Proof. intros E H x y Hin. eapply pair_ok_ext; eauto. Qed.
 
 (* ------------------------------------------------------------------ the monad *)
 
@@ -199,6 +361,11 @@ Proof.
     rewrite (L _ _ Ei).
     destruct (W2 _ _ Ei) as (r & Hr & _). rewrite (L _ _ Hr). rewrite Hr in Hi.
     exists h. split; [assumption|apply same_shape_refl].
+  - intros i h h' x c c' Hi Hi' K K'.
+    assert (Hd : forall j hj, head s j = Some hj -> head s' j = Some hj).
+    { intros j hj Hj. unfold head in *. destruct (lk s j) as [nj|] eqn:Ej; [|discriminate]. rewrite (L _ _ Ej).
+      destruct (W2 _ _ Ej) as (r & Hr & _). rewrite (L _ _ Hr). rewrite Hr in Hj. assumption. }
+    rewrite (Hd _ _ Hi) in Hi'. injection Hi' as <-. rewrite K in K'. injection K' as <-. apply pair_ok_refl.
 Qed.
 
 (* ------------------------------------------------------------------ primitives *)
@@ -338,10 +505,17 @@ Qed.
 
 Lemma ext_put_root s r n n' :
   wf s -> lk s r = Some n -> nrep n = r -> nrep n' = r ->
-  (is_unknown (nty n) = true \/ same_shape (nty n) (nty n') = true) ->
+  (is_unknown (nty n) = true \/ nty n' = nty n) ->
   ext s (put_st r n' s).
 Proof.
-  intros W Hr E E' Sh. repeat split.
+  intros W Hr E E' Sh.
+  assert (Hd : forall j hj, head s j = Some hj -> is_unknown hj = false -> head (put_st r n' s) j = Some hj).
+  { intros j hj Hj U. rewrite (head_put_root s r n n') by assumption.
+    unfold head in Hj. unfold rep. destruct (lk s j) as [x|] eqn:Ex; [|discriminate]. cbn [option_map].
+    destruct (Pos.eqb_spec (nrep x) r) as [Eq|Nq].
+    - rewrite Eq, Hr in Hj. injection Hj as <-. destruct Sh as [Sh|Sh]; congruence.
+    - unfold head. rewrite Ex. assumption. }
+  repeat split.
   - cbn [put_st next]. lia.
   - intros i x Hi. destruct (Pos.eq_dec i r) as [->|Ne].
     + rewrite lk_put_same. eauto.
@@ -351,8 +525,11 @@ Proof.
     unfold head in Hi. unfold rep. destruct (lk s i) as [x|] eqn:Ex; [|discriminate]. cbn [option_map].
     destruct (Pos.eqb_spec (nrep x) r) as [Eq|Nq].
     + rewrite Eq, Hr in Hi. injection Hi as <-. exists (nty n'). split; [reflexivity|].
-      destruct Sh as [Sh|Sh]; [congruence|assumption].
+      destruct Sh as [Sh|Sh]; [congruence|rewrite Sh; apply same_shape_refl].
     + exists h. split; [|apply same_shape_refl]. unfold head. rewrite Ex. assumption.
+  - intros i h h' x c c' Hi Hi' K K'.
+    rewrite (Hd _ _ Hi (kid_known _ _ _ K)) in Hi'. injection Hi' as <-. rewrite K in K'. injection K' as <-.
+    apply pair_ok_refl.
 Qed.
 
 (* add_constraint / set_cons: the type of the root is unchanged *)
@@ -364,7 +541,7 @@ Qed.
 
 Lemma pres_update_root a (f : node -> node) :
   (forall n, nrep (f n) = nrep n) ->
-  (forall n, is_unknown (nty n) = true \/ same_shape (nty n) (nty (f n)) = true) ->
+  (forall n, is_unknown (nty n) = true \/ nty (f n) = nty n) ->
   pres (r <- find a ;; n <- get_node r ;; put_node r (f n)).
 Proof.
   intros F1 F2 s u s' W H.
@@ -382,7 +559,7 @@ Proof.
   unfold add_constraint.
   apply (pres_update_root a (fun n => mkNode (nty n) (nrep n) (nsize n) (cinsert c (ncons n)))).
   - reflexivity.
-  - intros n. right. apply same_shape_refl.
+  - intros n. right. reflexivity.
 Qed.
 
 Lemma pres_set_cons a cs : pres (set_cons a cs).
@@ -390,7 +567,7 @@ Proof.
   unfold set_cons.
   apply (pres_update_root a (fun n => mkNode (nty n) (nrep n) (nsize n) cs)).
   - reflexivity.
-  - intros n. right. apply same_shape_refl.
+  - intros n. right. reflexivity.
 Qed.
 
 (* the set of type names is not part of the graph *)
@@ -410,6 +587,8 @@ Proof.
     + intros i n H. rewrite L. eauto.
     + intros i j r Hi Hj. rewrite !R. eauto.
     + intros i h H _. rewrite Hd. exists h. split; [assumption|apply same_shape_refl].
+    + intros i h h' x c c' Hi Hi' K K'. rewrite Hd, Hi in Hi'. injection Hi' as <-.
+      rewrite K in K'. injection K' as <-. apply pair_ok_refl.
 Qed.
 
 Lemma pres_add_type_name v : pres (add_type_name v).
@@ -442,13 +621,8 @@ Proof.
     rewrite H2 in Hh. cbn in Hh. congruence. }
   set (n' := mkNode t (nrep n) (nsize n) (ncons n)).
   assert (E' : nrep n' = r) by (cbn; assumption).
-  repeat split.
-  - destruct (wf_put_root s r n n' W H2 eq_refl) as [A _]. exact A.
-  - destruct (wf_put_root s r n n' W H2 eq_refl) as [_ B]. exact B.
-  - apply (ext_put_root s r n n' W H2 En0 E'). left. rewrite Un. reflexivity.
-  - apply (ext_put_root s r n n' W H2 En0 E'). left. rewrite Un. reflexivity.
-  - apply (ext_put_root s r n n' W H2 En0 E'). left. rewrite Un. reflexivity.
-  - apply (ext_put_root s r n n' W H2 En0 E'). left. rewrite Un. reflexivity.
+  assert (X : ext s (put_st r n' s)) by (apply (ext_put_root s r n n' W H2 En0 E'); left; rewrite Un; reflexivity).
+  split; [exact (wf_put_root s r n n' W H2 eq_refl)|]. split; [exact X|]. split.
   - intros i. apply (rep_put_root s r n n'); [assumption|reflexivity].
   - intros i. rewrite (head_put_root s r n n' i H2 En0 E'). rewrite H1.
     destruct (rep s i) as [q|] eqn:Eq; [reflexivity|].
@@ -501,9 +675,10 @@ Lemma union_st_spec big small nbig nsmall s :
   wf s -> lk s big = Some nbig -> nrep nbig = big -> lk s small = Some nsmall -> nrep nsmall = small ->
   big <> small ->
   (is_unknown (nty nsmall) = true \/ same_shape (nty nsmall) (nty nbig) = true) ->
+  (forall x cs cb, kid (nty nsmall) x = Some cs -> kid (nty nbig) x = Some cb -> pair_ok s cs cb) ->
   wf (union_st big small nbig nsmall s) /\ ext s (union_st big small nbig nsmall s).
 Proof.
-  intros W Hb Eb Hs Es Ne Sh. pose proof W as [W1 W2].
+  intros W Hb Eb Hs Es Ne Sh Hk. pose proof W as [W1 W2].
   set (s' := union_st big small nbig nsmall s).
   assert (R : forall i, rep s' i = option_map (fun q => if Pos.eqb q small then big else q) (rep s i))
     by (intros; now apply rep_union).
@@ -514,6 +689,19 @@ Proof.
     rewrite Eq. destruct (Pos.eqb_spec q small); [contradiction|reflexivity]. }
   assert (Hbig : exists x, lk s' big = Some x /\ nrep x = big /\ nty x = nty nbig).
   { unfold s'. rewrite lk_union, Pos.eqb_refl. eexists. repeat split. }
+  assert (Hhead : forall i y, lk s i = Some y ->
+            head s' i = if Pos.eqb (nrep y) small then Some (nty nbig) else head s i).
+  { intros i y Ey.
+    assert (Ri : rep s' i = Some (if Pos.eqb (nrep y) small then big else nrep y)).
+    { rewrite R. unfold rep. rewrite Ey. reflexivity. }
+    assert (Hd : forall q, rep s' i = Some q -> head s' i = option_map nty (lk s' q)).
+    { intros q Hq. unfold head, rep in *. destruct (lk s' i); [|discriminate]. cbn in Hq. congruence. }
+    rewrite (Hd _ Ri).
+    destruct (Pos.eqb_spec (nrep y) small) as [Eq|Nq].
+    + destruct Hbig as (b & Hb' & _ & Tb). rewrite Hb'. cbn [option_map]. rewrite Tb. reflexivity.
+    + unfold head. rewrite Ey. destruct (Pos.eq_dec (nrep y) big) as [Eb2|Nb2].
+      * destruct Hbig as (b & Hb' & _ & Tb). rewrite Eb2, Hb', Hb. cbn [option_map]. rewrite Tb. reflexivity.
+      * destruct (W2 _ _ Ey) as (q & Hq & Eqq). rewrite (Hroot _ _ Hq Eqq Nq Nb2). rewrite Hq. reflexivity. }
   split; [split|repeat split].
   - intros i x Hi. unfold s' in *. rewrite lk_union in Hi. cbn [union_st next].
     destruct (Pos.eqb_spec i big) as [->|Ni]; [eapply W1; eassumption|].
@@ -531,32 +719,35 @@ Proof.
   - unfold s'. cbn [union_st next]. lia.
   - intros i x Hi. unfold s'. rewrite lk_union. destruct (Pos.eqb i big); [eauto|]. rewrite Hi. cbn. eauto.
   - intros i j q Hi Hj. rewrite !R, Hi, Hj. cbn [option_map]. eexists; split; reflexivity.
-  - intros i h Hi U.
-    unfold head in Hi. destruct (lk s i) as [y|] eqn:Ey; [|discriminate].
-    assert (Ri : rep s' i = Some (if Pos.eqb (nrep y) small then big else nrep y)).
-    { rewrite R. unfold rep. rewrite Ey. reflexivity. }
-    assert (Hd : forall q, rep s' i = Some q -> head s' i = option_map nty (lk s' q)).
-    { intros q Hq. unfold head, rep in *. destruct (lk s' i); [|discriminate]. cbn in Hq. congruence. }
-    rewrite (Hd _ Ri).
-    destruct (Pos.eqb_spec (nrep y) small) as [Eq|Nq].
-    + destruct Hbig as (b & Hb' & _ & Tb). rewrite Hb'. cbn [option_map]. rewrite Tb.
-      rewrite Eq, Hs in Hi. cbn in Hi. injection Hi as <-.
-      exists (nty nbig). split; [reflexivity|]. destruct Sh as [Sh|Sh]; [congruence|assumption].
-    + destruct (Pos.eq_dec (nrep y) big) as [Eb2|Nb2].
-      * destruct Hbig as (b & Hb' & _ & Tb). rewrite Eb2, Hb'. cbn [option_map]. rewrite Tb.
-        rewrite Eb2, Hb in Hi. cbn in Hi. injection Hi as <-.
-        exists (nty nbig). split; [reflexivity|apply same_shape_refl].
-      * destruct (W2 _ _ Ey) as (q & Hq & Eqq).
-        rewrite (Hroot _ _ Hq Eqq Nq Nb2). rewrite Hq in Hi. cbn in *. injection Hi as <-.
-        exists (nty q). split; [reflexivity|apply same_shape_refl].
+  - intros i h Hi U. pose proof Hi as Hi0. unfold head in Hi. destruct (lk s i) as [y|] eqn:Ey; [|discriminate].
+    rewrite (Hhead _ _ Ey). destruct (Pos.eqb_spec (nrep y) small) as [Eq|Nq].
+    + rewrite Eq, Hs in Hi. cbn in Hi. injection Hi as <-. exists (nty nbig). split; [reflexivity|].
+      destruct Sh as [Sh|Sh]; [congruence|assumption].
+    + exists h. split; [exact Hi0|apply same_shape_refl].
+  - intros i h h' x c c' Hi Hi' K K'.
+    assert (PE : forall u v, pair_ok s u v -> pair_ok s' u v).
+    { intros u v. apply pair_ok_ext0.
+      - intros i0 j0 q Hi1 Hj1. rewrite !R, Hi1, Hj1. cbn [option_map]. eexists; split; reflexivity.
+      - intros i0 h0 Hi1 U. pose proof Hi1 as Hi0. unfold head in Hi1. destruct (lk s i0) as [y|] eqn:Ey; [|discriminate].
+        rewrite (Hhead _ _ Ey). destruct (Pos.eqb_spec (nrep y) small) as [Eq|Nq].
+        + rewrite Eq, Hs in Hi1. cbn in Hi1. injection Hi1 as <-. exists (nty nbig). split; [reflexivity|].
+          destruct Sh as [Sh|Sh]; [congruence|assumption].
+        + exists h0. split; [exact Hi0|apply same_shape_refl]. }
+    pose proof Hi as Hi0. unfold head in Hi. destruct (lk s i) as [y|] eqn:Ey; [|discriminate].
+    rewrite (Hhead _ _ Ey) in Hi'. destruct (Pos.eqb_spec (nrep y) small) as [Eq|Nq].
+    + injection Hi' as <-. rewrite Eq, Hs in Hi. cbn in Hi. injection Hi as <-.
+      apply PE. exact (Hk x c c' K K').
+    + rewrite Hi0 in Hi'. injection Hi' as <-. rewrite K in K'. injection K' as <-. apply pair_ok_refl.
 Qed.
 
 Lemma union_spec a b s u s' :
   wf s -> union a b s = Ok (u, s') ->
   (forall ha hb, head s a = Some ha -> head s b = Some hb -> same_shape ha hb = true) ->
+  (forall ha hb x ca cb, head s a = Some ha -> head s b = Some hb ->
+                         kid ha x = Some ca -> kid hb x = Some cb -> pair_ok s ca cb) ->
   wf s' /\ ext s s' /\ (exists r, rep s' a = Some r /\ rep s' b = Some r).
 Proof.
-  intros W H Sh. unfold union in H.
+  intros W H Sh Hk. unfold union in H.
   apply bind_inv in H as (ra & s1 & H1 & H). apply find_inv in H1 as [-> H1].
   apply bind_inv in H as (rb & s2 & H2 & H). apply find_inv in H2 as [-> H2].
   destruct (Pos.eqb_spec ra rb) as [->|Ne].
@@ -572,12 +763,14 @@ Proof.
     specialize (Sh _ _ Hha Hhb).
     destruct (N.ltb (nsize na) (nsize nb)).
     + injection H as _ H. change (union_st rb ra nb na s = s') in H. subst s'.
-      destruct (union_st_spec rb ra nb na s W H4 Eb H3 Ea) as [W' E']; [congruence|right; assumption|].
+      destruct (union_st_spec rb ra nb na s W H4 Eb H3 Ea) as [W' E'];
+        [congruence|right; assumption|intros x cs cb K1 K2; exact (Hk _ _ x cs cb Hha Hhb K1 K2)|].
       split; [assumption|]. split; [assumption|].
       exists rb. rewrite !(rep_union rb ra nb na s _ H4 Eb) by congruence. rewrite H1, H2. cbn [option_map].
       rewrite Pos.eqb_refl. destruct (Pos.eqb_spec rb ra); [congruence|auto].
     + injection H as _ H. change (union_st ra rb na nb s = s') in H. subst s'.
-      destruct (union_st_spec ra rb na nb s W H3 Ea H4 Eb Ne) as [W' E']; [right; now apply same_shape_sym|].
+      destruct (union_st_spec ra rb na nb s W H3 Ea H4 Eb Ne) as [W' E'];
+        [right; now apply same_shape_sym|intros x cs cb K1 K2; apply pair_ok_sym; exact (Hk _ _ x cb cs Hha Hhb K2 K1)|].
       split; [assumption|]. split; [assumption|].
       exists ra. rewrite !(rep_union ra rb na nb s _ H3 Ea Ne). rewrite H1, H2. cbn [option_map].
       rewrite Pos.eqb_refl. destruct (Pos.eqb_spec ra rb); [congruence|auto].
@@ -620,7 +813,8 @@ Proof. intros H s a s' W E. apply H in E. subst s'. split; [assumption|apply ext
 (* ------------------------------------------------------------------ the graph-level functions *)
 
 Record gpres (R : grec) : Prop := mkGP {
-  gp_unify : forall sp a b seen, pres (g_unify R sp a b seen);
+  gp_unify : forall sp a b seen s r s', wf s -> seen_ok seen s -> g_unify R sp a b seen s = Ok (r, s') ->
+             wf s' /\ ext s s' /\ seen_ok (snd r) s' /\ pair_ok s' a b;
   gp_check : forall sp a, pres (g_check R sp a);
   gp_arith : forall k sp a b, pres (g_arith R k sp a b);
   gp_div : forall sp a b, pres (g_div R sp a b);
@@ -654,18 +848,52 @@ Proof.
   apply pres_bind; [apply H|intros _; apply IH].
 Qed.
 
-Lemma pres_unify2 R sp : gpres R -> forall xs ys seen, pres (unify2 R sp xs ys seen).
+Lemma seen_ok_nil s : seen_ok [] s.
+Proof. intros x y []. Qed.
+
+(* with nothing assumed (`seen` empty) sub_unify is an ordinary state extension *)
+Lemma gp_unify0 R (P : gpres R) sp a b : pres (g_unify R sp a b []).
 Proof.
-  intros P. induction xs as [|x xs IH]; intros [|y ys] seen; cbn [unify2]; try apply pres_ret.
-  apply pres_bind; [apply (gp_unify R P)|intros r; apply IH].
+  intros s r s' W H. destruct (gp_unify R P sp a b [] s r s' W (seen_ok_nil s) H) as (X & Y & _). auto.
 Qed.
 
-Lemma pres_unify_fields R sp missing a_fields : gpres R ->
-  forall b_fields seen, pres (unify_fields R sp missing a_fields b_fields seen).
+Lemma pres_unify R (P : gpres R) sp a b : pres (unify R sp a b).
+Proof. unfold unify. apply pres_bind; [apply (gp_unify0 R P)|intros; apply pres_ret]. Qed.
+
+Lemma unify2_spec R (P : gpres R) sp : forall xs ys seen s seen' s',
+  wf s -> seen_ok seen s -> unify2 R sp xs ys seen s = Ok (seen', s') ->
+  wf s' /\ ext s s' /\ seen_ok seen' s' /\
+  (forall n x y, nth_error xs n = Some x -> nth_error ys n = Some y -> pair_ok s' x y).
 Proof.
-  intros P. induction b_fields as [|[k [bsp b_ty]] rest IH]; intros seen; cbn [unify_fields]; [apply pres_ret|].
-  destruct (flookup k a_fields) as [[asp a_ty]|]; [|apply pres_fail].
-  apply pres_bind; [apply (gp_unify R P)|intros r; apply IH].
+  induction xs as [|x xs IH]; intros [|y ys] seen s seen' s' W S H; cbn [unify2] in H;
+    try (injection H as <- <-; split; [assumption|]; split; [apply ext_refl|]; split; [assumption|];
+         intros n x0 y0 H1 H2; destruct n; cbn in *; discriminate).
+  apply bind_inv in H as (r & s1 & H1 & H).
+  destruct (gp_unify R P _ _ _ _ _ _ _ W S H1) as (W1 & E1 & S1 & P1).
+  destruct (IH _ _ _ _ _ W1 S1 H) as (W2 & E2 & S2 & P2).
+  split; [assumption|]. split; [eapply ext_trans; eassumption|]. split; [assumption|].
+  intros [|n] x' y' Hx Hy; cbn [nth_error] in Hx, Hy.
+  - injection Hx as <-. injection Hy as <-. eapply pair_ok_ext; eassumption.
+  - eapply P2; eassumption.
+Qed.
+
+Lemma unify_fields_spec R (P : gpres R) sp missing a_fields : forall b_fields seen s seen' s',
+  wf s -> seen_ok seen s -> unify_fields R sp missing a_fields b_fields seen s = Ok (seen', s') ->
+  wf s' /\ ext s s' /\ seen_ok seen' s' /\
+  (forall k va vb, flookup k a_fields = Some va -> flookup k b_fields = Some vb -> pair_ok s' (snd va) (snd vb)).
+Proof.
+  induction b_fields as [|[k [bsp b_ty]] rest IH]; intros seen s seen' s' W S H; cbn [unify_fields] in H.
+  - injection H as <- <-. split; [assumption|]. split; [apply ext_refl|]. split; [assumption|].
+    intros k va vb _ Hb. discriminate.
+  - destruct (flookup k a_fields) as [[asp a_ty]|] eqn:Ea; [|discriminate].
+    apply bind_inv in H as (r & s1 & H1 & H).
+    destruct (gp_unify R P _ _ _ _ _ _ _ W S H1) as (W1 & E1 & S1 & P1).
+    destruct (IH _ _ _ _ W1 S1 H) as (W2 & E2 & S2 & P2).
+    split; [assumption|]. split; [eapply ext_trans; eassumption|]. split; [assumption|].
+    intros k' va vb Ha Hb. cbn [flookup] in Hb. destruct (String.eqb k' k) eqn:Ek.
+    + apply String.eqb_eq in Ek. subst k'. rewrite Ea in Ha. injection Ha as <-. injection Hb as <-. cbn [snd].
+      eapply pair_ok_ext; eassumption.
+    + eapply P2; eassumption.
 Qed.
 
 Ltac pstep R P :=
@@ -690,7 +918,7 @@ Ltac pstep R P :=
   | |- pres (set_cons _ _) => apply pres_set_cons
   | |- pres (add_type_name _) => apply pres_add_type_name
   | |- pres (is_type_name _) => apply pres_is_type_name
-  | |- pres (g_unify R _ _ _ _) => apply (gp_unify R P)
+  | |- pres (g_unify R _ _ _ []) => apply (gp_unify0 R P)
   | |- pres (g_check R _ _) => apply (gp_check R P)
   | |- pres (g_arith R _ _ _ _) => apply (gp_arith R P)
   | |- pres (g_div R _ _ _) => apply (gp_div R P)
@@ -698,11 +926,9 @@ Ltac pstep R P :=
   | |- pres (g_copy R _ _) => apply framed_pres, (gp_copy R P)
   | |- pres (g_neg R _ _) => apply (gp_neg R P)
   | |- pres (check_not_inside R _ _ _) => apply (pres_check_not_inside R P)
-  | |- pres (unify R _ _ _) => unfold unify
+  | |- pres (unify R _ _ _) => apply (pres_unify R P)
   | |- pres (unify_option R _ _ _) => unfold unify_option
   | |- pres (copy R _) => unfold copy
-  | |- pres (unify2 R _ _ _ _) => apply (pres_unify2 R _ P)
-  | |- pres (unify_fields R _ _ _ _ _) => apply (pres_unify_fields R _ _ _ P)
   | |- pres (match ?x with _ => _ end) => destruct x
   end.
 
@@ -756,116 +982,201 @@ Qed.
 Definition shapes_agree (s : st) (a b : tyid) : Prop :=
   forall h1 h2, head s a = Some h1 -> head s b = Some h2 -> same_shape h1 h2 = true.
 
-Lemma mid_structured {A} (m : M A) s x s2 ra rb ta tb :
-  pres m -> wf s -> m s = Ok (x, s2) ->
-  head s ra = Some ta -> head s rb = Some tb ->
-  is_unknown ta = false -> is_unknown tb = false -> same_shape ta tb = true ->
-  wf s2 /\ ext s s2 /\ shapes_agree s2 ra rb.
-Proof.
-  intros Pm W H Ha Hb Ua Ub Sh. destruct (Pm _ _ _ W H) as [W2 E2]. split; [assumption|]. split; [assumption|].
-  destruct E2 as (_ & _ & _ & E4).
-  destruct (E4 _ _ Ha Ua) as (ha' & Ha' & Sa). destruct (E4 _ _ Hb Ub) as (hb' & Hb' & Sb).
-  intros h1 h2 H1 H2. rewrite Ha' in H1. rewrite Hb' in H2. injection H1 as <-. injection H2 as <-.
-  apply (same_shape_trans _ ta); [apply same_shape_sym; exact Sa|]. apply (same_shape_trans _ tb); [exact Sh|exact Sb].
-Qed.
-
 Definition unify_compat (ta tb : tyh) : Prop :=
   is_unknown ta = true \/ is_unknown tb = true \/ same_shape ta tb = true.
 
+(* the components of the current types of two classes correspond position by position *)
+Definition kids_ok (s : st) (a b : tyid) : Prop :=
+  forall ha hb x ca cb, head s a = Some ha -> head s b = Some hb -> kid ha x = Some ca -> kid hb x = Some cb ->
+                        pair_ok s ca cb.
+
+(* `seen` is fine but for the pair that is being unified *)
+Definition seen_but (seen : seenset) (s : st) (a b : tyid) : Prop :=
+  forall x y, In (x, y) seen -> pair_ok s x y \/ (x = a /\ y = b) \/ (x = b /\ y = a).
+
+(* the middle of sub_unify for two known types of the same shape: the components have been unified *)
+Lemma mid_structured s seen' s2 ra rb ta tb :
+  wf s2 -> ext s s2 -> seen_ok seen' s2 ->
+  head s ra = Some ta -> head s rb = Some tb ->
+  is_unknown ta = false -> is_unknown tb = false -> same_shape ta tb = true ->
+  (forall x ca cb, kid ta x = Some ca -> kid tb x = Some cb -> pair_ok s2 ca cb) ->
+  wf s2 /\ ext s s2 /\ shapes_agree s2 ra rb /\ unify_compat ta tb /\ seen_but seen' s2 ra rb /\ kids_ok s2 ra rb.
+Proof.
+  intros W2 E2 S2 Ha Hb Ua Ub Sh Hk. split; [assumption|]. split; [assumption|].
+  pose proof E2 as (_ & _ & _ & E4 & E5).
+  destruct (E4 _ _ Ha Ua) as (ha' & Ha' & Sa). destruct (E4 _ _ Hb Ub) as (hb' & Hb' & Sb).
+  split; [|split; [right; right; assumption|split]].
+  - intros h1 h2 H1 H2. rewrite Ha' in H1. rewrite Hb' in H2. injection H1 as <-. injection H2 as <-.
+    apply (same_shape_trans _ ta); [apply same_shape_sym; exact Sa|]. apply (same_shape_trans _ tb); [exact Sh|exact Sb].
+  - intros x y Hin. left. now apply S2.
+  - intros h1 h2 x c1 c2 H1 H2 K1 K2. rewrite Ha' in H1. rewrite Hb' in H2. injection H1 as <-. injection H2 as <-.
+    destruct (kid_shape _ _ x c1 (same_shape_sym _ _ Sa) K1) as [ca Ka].
+    destruct (kid_shape _ _ x ca Sh Ka) as [cb Kb].
+    apply (pair_ok_trans _ _ ca); [apply pair_ok_sym; exact (E5 _ _ _ _ _ _ Ha Ha' Ka K1)|].
+    apply (pair_ok_trans _ _ cb); [exact (Hk _ _ _ Ka Kb)|exact (E5 _ _ _ _ _ _ Hb Hb' Kb K2)].
+Qed.
+
+Lemma seen_mem_In a b seen : seen_mem a b seen = true -> In (a, b) seen.
+Proof.
+  unfold seen_mem. intros H. apply existsb_exists in H as ([x y] & Hin & E). cbn [fst snd] in E.
+  apply andb_true_iff in E as [E1 E2]. apply Pos.eqb_eq in E1. apply Pos.eqb_eq in E2. subst. assumption.
+Qed.
+
 Lemma unify_body_spec R (P : gpres R) sp a b seen s r s' :
-  wf s -> unify_body R sp a b seen s = Ok (r, s') ->
-  wf s' /\ ext s s' /\
+  wf s -> seen_ok seen s -> unify_body R sp a b seen s = Ok (r, s') ->
+  wf s' /\ ext s s' /\ seen_ok (snd r) s' /\ pair_ok s' a b /\
   (seen = [] ->
    (exists q, rep s' a = Some q /\ rep s' b = Some q) /\
    (exists ha hb, head s a = Some ha /\ head s b = Some hb /\ (rep s a = rep s b \/ unify_compat ha hb))).
 Proof.
-  intros W H. unfold unify_body in H.
+  intros W S H. unfold unify_body in H.
   apply bind_inv in H as (ra & s1 & H1 & H). apply find_inv in H1 as [-> H1].
   apply bind_inv in H as (rb & s2 & H2 & H). apply find_inv in H2 as [-> H2].
   destruct (head_of_rep _ _ _ W H1) as [Hha Rra]. destruct (head_of_rep _ _ _ W H2) as [Hhb Rrb].
+  assert (Preps : forall s0, ext s s0 -> pair_ok s0 ra rb -> pair_ok s0 a b).
+  { intros s0 (_ & _ & E3 & _) Pk.
+    destruct (E3 _ _ _ H1 Rra) as (x1 & X1 & X1'). destruct (E3 _ _ _ H2 Rrb) as (x2 & X2 & X2').
+    apply (pair_ok_trans _ _ ra); [right; left; eauto|]. apply (pair_ok_trans _ _ rb); [assumption|right; left; eauto]. }
   destruct (Pos.eqb ra rb || seen_mem ra rb seen) eqn:Eq.
-  - injection H as _ <-. split; [assumption|]. split; [apply ext_refl|].
-    intros ->. cbn [seen_mem existsb] in Eq. rewrite orb_false_r in Eq. apply Pos.eqb_eq in Eq. subst rb.
-    split; [eauto|].
-    destruct (root_of _ _ _ W H1) as (n & Hn & En).
-    assert (Hh : head s ra = Some (nty n)).
-    { unfold head. rewrite Hn, En, Hn. reflexivity. }
-    exists (nty n), (nty n). rewrite <- Hha, <- Hhb. repeat split; try assumption. left. congruence.
+  - injection H as <- <-. split; [assumption|]. split; [apply ext_refl|]. split; [assumption|]. split.
+    + apply (Preps s (ext_refl s)). apply orb_true_iff in Eq as [Eq|Eq].
+      * apply Pos.eqb_eq in Eq. subst rb. apply pair_ok_refl.
+      * apply S. now apply seen_mem_In.
+    + intros ->. cbn [seen_mem existsb] in Eq. rewrite orb_false_r in Eq. apply Pos.eqb_eq in Eq. subst rb.
+      split; [eauto|].
+      destruct (root_of _ _ _ W H1) as (n & Hn & En).
+      assert (Hh : head s ra = Some (nty n)).
+      { unfold head. rewrite Hn, En, Hn. reflexivity. }
+      exists (nty n), (nty n). rewrite <- Hha, <- Hhb. repeat split; try assumption. left. congruence.
   - apply orb_false_iff in Eq as [Ne _]. apply Pos.eqb_neq in Ne.
     apply bind_inv in H as (ta & s3 & H3 & H). apply find_type_inv in H3 as [-> H3].
     apply bind_inv in H as (tb & s4 & H4 & H). apply find_type_inv in H4 as [-> H4].
     apply bind_inv in H as (seen' & s5 & Hmid & H).
-    assert (M : wf s5 /\ ext s s5 /\ shapes_agree s5 ra rb /\ unify_compat ta tb).
+    assert (M : wf s5 /\ ext s s5 /\ shapes_agree s5 ra rb /\ unify_compat ta tb /\ seen_but seen' s5 ra rb /\
+                kids_ok s5 ra rb).
     { set (sn := (rb, ra) :: (ra, rb) :: seen) in *.
+      assert (Sbut : forall s0, ext s s0 -> seen_but sn s0 ra rb).
+      { intros s0 E0 x y [Hin|[Hin|Hin]].
+        - injection Hin as <- <-. right; right; auto.
+        - injection Hin as <- <-. right; left; auto.
+        - left. eapply pair_ok_ext; [exact E0|]. now apply S. }
       assert (CaseU1 : forall t, head s rb = Some HUnknown -> head s ra = Some t ->
                 (check_not_inside R sp rb ra ;;; set_type rb t ;;; ret sn) s = Ok (seen', s5) ->
-                wf s5 /\ ext s s5 /\ shapes_agree s5 ra rb).
+                wf s5 /\ ext s s5 /\ shapes_agree s5 ra rb /\ seen_but seen' s5 ra rb /\ kids_ok s5 ra rb).
       { intros t Hb Ha Hm. apply bind_inv in Hm as (u0 & s0 & Hc & Hm). apply (ro_check_not_inside R P) in Hc. subst s0.
-        apply bind_inv in Hm as (u & s6 & Hs & Hr). injection Hr as _ <-.
+        apply bind_inv in Hm as (u & s6 & Hs & Hr). injection Hr as <- <-.
         destruct (set_type_spec _ _ _ _ _ W Hb Hs) as (W' & E' & _ & Hd). split; [assumption|]. split; [assumption|].
-        intros h1 h2 X1 X2. rewrite Hd, Rra, Rrb in X1. rewrite Hd, Rrb in X2. rewrite Pos.eqb_refl in X2.
-        destruct (Pos.eqb_spec ra rb); [contradiction|]. rewrite Ha in X1. injection X1 as <-. injection X2 as <-.
-        apply same_shape_refl. }
+        assert (X1 : head s6 ra = Some t).
+        { rewrite Hd, Rra, Rrb. destruct (Pos.eqb_spec ra rb); [contradiction|]. exact Ha. }
+        assert (X2 : head s6 rb = Some t) by (rewrite Hd, Rrb, Pos.eqb_refl; reflexivity).
+        split; [|split; [now apply Sbut|]].
+        - intros h1 h2 Y1 Y2. rewrite X1 in Y1. rewrite X2 in Y2. injection Y1 as <-. injection Y2 as <-.
+          apply same_shape_refl.
+        - intros h1 h2 x c1 c2 Y1 Y2 K1 K2. rewrite X1 in Y1. rewrite X2 in Y2. injection Y1 as <-. injection Y2 as <-.
+          rewrite K1 in K2. injection K2 as <-. apply pair_ok_refl. }
       assert (CaseU2 : forall t, head s ra = Some HUnknown -> head s rb = Some t ->
                 (check_not_inside R sp ra rb ;;; set_type ra t ;;; ret sn) s = Ok (seen', s5) ->
-                wf s5 /\ ext s s5 /\ shapes_agree s5 ra rb).
+                wf s5 /\ ext s s5 /\ shapes_agree s5 ra rb /\ seen_but seen' s5 ra rb /\ kids_ok s5 ra rb).
       { intros t Ha Hb Hm. apply bind_inv in Hm as (u0 & s0 & Hc & Hm). apply (ro_check_not_inside R P) in Hc. subst s0.
-        apply bind_inv in Hm as (u & s6 & Hs & Hr). injection Hr as _ <-.
+        apply bind_inv in Hm as (u & s6 & Hs & Hr). injection Hr as <- <-.
         destruct (set_type_spec _ _ _ _ _ W Ha Hs) as (W' & E' & _ & Hd). split; [assumption|]. split; [assumption|].
-        intros h1 h2 X1 X2. rewrite Hd, Rra in X1. rewrite Hd, Rrb, Rra in X2. rewrite Pos.eqb_refl in X1.
-        destruct (Pos.eqb_spec rb ra); [congruence|]. rewrite Hb in X2. injection X1 as <-. injection X2 as <-.
-        apply same_shape_refl. }
-      assert (CaseS : forall (m : M seenset), pres m -> m s = Ok (seen', s5) ->
-                is_unknown ta = false -> is_unknown tb = false -> same_shape ta tb = true ->
-                wf s5 /\ ext s s5 /\ shapes_agree s5 ra rb /\ unify_compat ta tb).
-      { intros m Pm Hm Ua Ub Sh.
-        destruct (mid_structured m s seen' s5 ra rb ta tb Pm W Hm H3 H4 Ua Ub Sh) as (X & Y & Z).
-        split; [exact X|]. split; [exact Y|]. split; [exact Z|]. right; right; assumption. }
+        assert (X1 : head s6 ra = Some t) by (rewrite Hd, Rra, Pos.eqb_refl; reflexivity).
+        assert (X2 : head s6 rb = Some t).
+        { rewrite Hd, Rrb, Rra. destruct (Pos.eqb_spec rb ra); [congruence|]. exact Hb. }
+        split; [|split; [now apply Sbut|]].
+        - intros h1 h2 Y1 Y2. rewrite X1 in Y1. rewrite X2 in Y2. injection Y1 as <-. injection Y2 as <-.
+          apply same_shape_refl.
+        - intros h1 h2 x c1 c2 Y1 Y2 K1 K2. rewrite X1 in Y1. rewrite X2 in Y2. injection Y1 as <-. injection Y2 as <-.
+          rewrite K1 in K2. injection K2 as <-. apply pair_ok_refl. }
+      (* two equal leaves: nothing happens *)
+      assert (CaseL : (ret sn) s = Ok (seen', s5) -> rigid ta = true -> tb = ta ->
+                wf s5 /\ ext s s5 /\ shapes_agree s5 ra rb /\ unify_compat ta tb /\ seen_but seen' s5 ra rb /\
+                kids_ok s5 ra rb).
+      { intros Hm Rt ->. injection Hm as <- <-. split; [assumption|]. split; [apply ext_refl|].
+        split; [|split; [right; right; apply same_shape_refl|split; [apply Sbut, ext_refl|]]].
+        - intros h1 h2 Y1 Y2. rewrite H3 in Y1. rewrite H4 in Y2. injection Y1 as <-. injection Y2 as <-.
+          apply same_shape_refl.
+        - intros h1 h2 x c1 c2 Y1 Y2 K1 K2. rewrite H3 in Y1. injection Y1 as <-.
+          destruct ta; discriminate. }
+      (* the pair that is being unified may be assumed below two known types with components *)
+      assert (Ssn : inner ta = true -> inner tb = true -> seen_ok sn s).
+      { intros Ia Ib x y [Hin|[Hin|Hin]].
+        - injection Hin as <- <-. right; right. exists tb, ta. auto.
+        - injection Hin as <- <-. right; right. exists ta, tb. auto.
+        - now apply S. }
+      assert (CaseS : forall Wm Em Sm Ua Ub Sh Hk,
+                wf s5 /\ ext s s5 /\ shapes_agree s5 ra rb /\ unify_compat ta tb /\ seen_but seen' s5 ra rb /\
+                kids_ok s5 ra rb)
+        by (intros Wm Em Sm Ua Ub Sh Hk; exact (mid_structured s seen' s5 ra rb ta tb Wm Em Sm H3 H4 Ua Ub Sh Hk)).
       destruct ta, tb; try discriminate Hmid;
-        try (destruct (CaseU1 _ H4 H3 Hmid) as (X & Y & Z); split; [exact X|]; split; [exact Y|]; split; [exact Z|];
-             right; left; reflexivity);
-        try (destruct (CaseU2 _ H3 H4 Hmid) as (X & Y & Z); split; [exact X|]; split; [exact Y|]; split; [exact Z|];
-             left; reflexivity);
-        try (apply (CaseS (ret sn)); [apply pres_ret|assumption|reflexivity|reflexivity|reflexivity]).
+        try (destruct (CaseU1 _ H4 H3 Hmid) as (X & Y & Z & Z1 & Z2); split; [exact X|]; split; [exact Y|];
+             split; [exact Z|]; split; [right; left; reflexivity|]; split; [exact Z1|exact Z2]);
+        try (destruct (CaseU2 _ H3 H4 Hmid) as (X & Y & Z & Z1 & Z2); split; [exact X|]; split; [exact Y|];
+             split; [exact Z|]; split; [left; reflexivity|]; split; [exact Z1|exact Z2]);
+        try (apply (CaseL Hmid); reflexivity).
       - (* tuples *)
         destruct (Nat.eqb (length ts) (length ts0)) eqn:El; cbn [negb] in Hmid; [|discriminate].
-        apply (CaseS (unify2 R sp ts ts0 sn)); try reflexivity; try assumption.
-        apply pres_unify2; assumption.
+        destruct (unify2_spec R P sp _ _ _ _ _ _ W (Ssn eq_refl eq_refl) Hmid) as (Wm & Em & Sm & Pm).
+        apply (CaseS Wm Em Sm); try reflexivity; [exact El|].
+        intros x ca cb Ka Kb. destruct x; try discriminate Ka. cbn [kid] in Ka, Kb. eapply Pm; eassumption.
       - (* lists *)
-        apply (CaseS (r0 <- g_unify R sp t t0 sn ;; ret (snd r0))); try reflexivity; try assumption.
-        pauto R P.
+        apply bind_inv in Hmid as (r0 & s6 & Hu & Hr). injection Hr as <- <-.
+        destruct (gp_unify R P _ _ _ _ _ _ _ W (Ssn eq_refl eq_refl) Hu) as (Wm & Em & Sm & Pm).
+        apply (CaseS Wm Em Sm); try reflexivity.
+        intros x ca cb Ka Kb. destruct x; try discriminate Ka. cbn [kid] in Ka, Kb.
+        injection Ka as <-. injection Kb as <-. exact Pm.
       - (* functions *)
         destruct (purity_compatible p p0); cbn [negb] in Hmid; [|discriminate].
         destruct (Nat.eqb (length params) (length params0)) eqn:El; cbn [negb] in Hmid; [|discriminate].
-        eapply CaseS; try eassumption; try reflexivity. pauto R P.
+        apply bind_inv in Hmid as (seen1 & s6 & Hu & Hmid).
+        destruct (unify2_spec R P sp _ _ _ _ _ _ W (Ssn eq_refl eq_refl) Hu) as (W6 & E6 & S6 & P6).
+        apply bind_inv in Hmid as (r0 & s7 & Hu' & Hr). injection Hr as <- <-.
+        destruct (gp_unify R P _ _ _ _ _ _ _ W6 S6 Hu') as (Wm & Em & Sm & Pm).
+        apply (CaseS Wm (ext_trans _ _ _ E6 Em) Sm); try reflexivity; [exact El|].
+        intros x ca cb Ka Kb. destruct x; try discriminate Ka; cbn [kid] in Ka, Kb.
+        + eapply pair_ok_ext; [exact Em|]. eapply P6; eassumption.
+        + injection Ka as <-. injection Kb as <-. exact Pm.
       - (* blobs *)
         destruct (existsb (fun kv => negb (fmem (fst kv) fields0)) fields) eqn:Ex; [discriminate|].
-        eapply CaseS; try eassumption; try reflexivity.
-        + apply pres_unify_fields; assumption.
+        destruct (unify_fields_spec R P sp _ _ _ _ _ _ _ W (Ssn eq_refl eq_refl) Hmid) as (Wm & Em & Sm & Pm).
+        apply (CaseS Wm Em Sm); try reflexivity.
         + cbn [same_shape]. rewrite (existsb_keys_sub _ _ Ex). cbn.
           eapply unify_fields_ok; eassumption.
+        + intros x ca cb Ka Kb. destruct x; try discriminate Ka. cbn [kid] in Ka, Kb.
+          destruct (flookup k fields) as [va|] eqn:Ea; [|discriminate]. destruct (flookup k fields0) as [vb|] eqn:Eb; [|discriminate].
+          injection Ka as <-. injection Kb as <-. eapply Pm; eassumption.
       - (* extern blobs *)
         destruct (N.eqb id id0) eqn:Ei; [|discriminate].
-        eapply CaseS; try eassumption; try reflexivity. apply pres_unify2; assumption.
+        destruct (unify2_spec R P sp _ _ _ _ _ _ W (Ssn eq_refl eq_refl) Hmid) as (Wm & Em & Sm & Pm).
+        apply (CaseS Wm Em Sm); try reflexivity; [exact Ei|].
+        intros x ca cb Ka Kb. destruct x; discriminate Ka.
       - (* enums *)
         destruct (existsb (fun kv => negb (fmem (fst kv) variants0)) variants) eqn:Ex; [discriminate|].
-        eapply CaseS; try eassumption; try reflexivity.
-        + apply pres_unify_fields; assumption.
+        destruct (unify_fields_spec R P sp _ _ _ _ _ _ _ W (Ssn eq_refl eq_refl) Hmid) as (Wm & Em & Sm & Pm).
+        apply (CaseS Wm Em Sm); try reflexivity.
         + cbn [same_shape]. rewrite (existsb_keys_sub _ _ Ex). cbn.
-          eapply unify_fields_ok; eassumption. }
-    destruct M as (W5 & E5 & Sh5 & Cp).
+          eapply unify_fields_ok; eassumption.
+        + intros x ca cb Ka Kb. destruct x; try discriminate Ka. cbn [kid] in Ka, Kb.
+          destruct (flookup k variants) as [va|] eqn:Ea; [|discriminate]. destruct (flookup k variants0) as [vb|] eqn:Eb; [|discriminate].
+          injection Ka as <-. injection Kb as <-. eapply Pm; eassumption. }
+    destruct M as (W5 & E5 & Sh5 & Cp & Sb5 & Kk5).
     apply bind_inv in H as (u & s6 & Hu & H).
-    destruct (union_spec _ _ _ _ _ W5 Hu Sh5) as (W6 & E6 & (q & Q1 & Q2)).
-    apply bind_inv in H as (u' & s7 & Hc & H). injection H as _ <-.
+    destruct (union_spec _ _ _ _ _ W5 Hu Sh5 Kk5) as (W6 & E6 & (q & Q1 & Q2)).
+    apply bind_inv in H as (u' & s7 & Hc & H). injection H as <- <-.
     destruct (gp_check R P sp ra _ _ _ W6 Hc) as [W7 E7].
-    split; [assumption|]. split; [eapply ext_trans; [eassumption|eapply ext_trans; eassumption]|].
-    intros _. split.
-    + assert (E07 : ext s s7) by (eapply ext_trans; [eassumption|eapply ext_trans; eassumption]).
-      destruct E07 as (_ & _ & E3 & _). destruct E7 as (_ & _ & E3' & _).
-      destruct (E3 _ _ _ H1 Rra) as (x1 & X1 & X1'). destruct (E3 _ _ _ H2 Rrb) as (x2 & X2 & X2').
-      destruct (E3' _ _ _ Q1 Q2) as (x3 & X3 & X3').
-      exists x3. split; congruence.
-    + exists ta, tb. repeat split; try congruence. right. assumption.
+    assert (E07 : ext s s7) by (eapply ext_trans; [eassumption|eapply ext_trans; eassumption]).
+    assert (Pab : pair_ok s7 ra rb) by (eapply pair_ok_ext; [exact E7|]; right; left; eauto).
+    split; [assumption|]. split; [assumption|]. cbn [snd]. split; [|split; [now apply Preps|]].
+    + intros x y Hin. destruct (Sb5 _ _ Hin) as [Pk|[[-> ->]|[-> ->]]].
+      * eapply pair_ok_ext; [|exact Pk]. eapply ext_trans; eassumption.
+      * assumption.
+      * now apply pair_ok_sym.
+    + intros _. split.
+      * destruct E07 as (_ & _ & E3 & _). destruct E7 as (_ & _ & E3' & _).
+        destruct (E3 _ _ _ H1 Rra) as (x1 & X1 & X1'). destruct (E3 _ _ _ H2 Rrb) as (x2 & X2 & X2').
+        destruct (E3' _ _ _ Q1 Q2) as (x3 & X3 & X3').
+        exists x3. split; congruence.
+      * exists ta, tb. repeat split; try congruence. right. assumption.
 Qed.
 
 (* ------------------------------------------------------------------ inner_copy only adds nodes *)
@@ -1075,9 +1386,12 @@ Qed.
 Theorem gfix_pres : forall g, gpres (gfix g).
 Proof.
   induction g as [|g IH]; cbn [gfix].
-  - constructor; intros; try apply pres_oof; try apply ro_oof. intros s a' s' _ H. discriminate.
+  - constructor; intros; try apply pres_oof; try apply ro_oof.
+    + discriminate.
+    + intros s0 a' s0' _ H0. discriminate.
   - constructor; cbn [gstep g_unify g_check g_arith g_div g_divres g_copy g_neg g_inside]; intros.
-    + intros s r s' W H. destruct (unify_body_spec _ IH _ _ _ _ _ _ _ W H) as (X & Y & _). auto.
+    + match goal with W : wf _, S : seen_ok _ _, H : unify_body _ _ _ _ _ _ = Ok _ |- _ =>
+        destruct (unify_body_spec _ IH _ _ _ _ _ _ _ W S H) as (X & Y & Z & Z' & _) end. auto.
     + now apply pres_check_body.
     + now apply pres_arith_body.
     + now apply pres_div_body.
@@ -1236,14 +1550,14 @@ Section TopLevel.
     - apply pres_bind; [apply pres_add_type_name|intros _].
       apply pres_bind; [apply pres_var_ty|intros bt]. apply pres_bind; [apply pres_decl_params|intros [tp seen]].
       apply pres_bind; [apply pres_decl_fields|intros res]. apply pres_bind; [apply pres_push|intros t].
-      apply pres_bind; [|intros; apply pres_ret]. unfold unify. apply pres_bind; [apply (gp_unify G PG)|intros; apply pres_ret].
+      apply pres_bind; [|intros; apply pres_ret]. unfold unify. apply pres_bind; [apply (gp_unify0 G PG)|intros; apply pres_ret].
     - apply pres_bind; [apply pres_add_type_name|intros _].
       apply pres_bind; [apply pres_var_ty|intros bt]. apply pres_bind; [apply pres_decl_params|intros [tp seen]].
       apply pres_bind; [apply pres_decl_fields|intros res]. apply pres_bind; [apply pres_push|intros t].
-      apply pres_bind; [|intros; apply pres_ret]. unfold unify. apply pres_bind; [apply (gp_unify G PG)|intros; apply pres_ret].
+      apply pres_bind; [|intros; apply pres_ret]. unfold unify. apply pres_bind; [apply (gp_unify0 G PG)|intros; apply pres_ret].
     - apply pres_bind; [apply pres_definition; assumption|intros; apply pres_ret].
     - apply pres_bind; [apply pres_resolve_type; assumption|intros dt]. apply pres_bind; [apply pres_var_ty|intros vt].
-      apply pres_bind; [|intros; apply pres_ret]. unfold unify. apply pres_bind; [apply (gp_unify G PG)|intros; apply pres_ret].
+      apply pres_bind; [|intros; apply pres_ret]. unfold unify. apply pres_bind; [apply (gp_unify0 G PG)|intros; apply pres_ret].
   Qed.
 
   Lemma pres_or_else_err {A} (m : M A) k sp : pres m -> pres (or_else_err m k sp).
@@ -1258,7 +1572,7 @@ Section TopLevel.
     destruct start; [|apply pres_fail].
     apply pres_bind; [apply pres_push|intros v0]. apply pres_bind; [apply pres_push|intros st0].
     apply pres_bind; [apply pres_var_ty|intros t]. apply pres_or_else_err.
-    apply pres_bind; [|intros; apply pres_ret]. unfold unify. apply pres_bind; [apply (gp_unify G PG)|intros; apply pres_ret].
+    apply pres_bind; [|intros; apply pres_ret]. unfold unify. apply pres_bind; [apply (gp_unify0 G PG)|intros; apply pres_ret].
   Qed.
 End TopLevel.
 
@@ -1319,7 +1633,7 @@ Theorem unify_same_rep g sp a b s r s' :
 Proof.
   intros W H. unfold unify in H. apply bind_inv in H as ([r0 seen'] & s1 & H1 & H). injection H as _ <-.
   destruct g as [|g]; [discriminate|]. cbn [gfix gstep g_unify] in H1.
-  destruct (unify_body_spec _ (gfix_pres g) _ _ _ _ _ _ _ W H1) as (X & Y & Z).
+  destruct (unify_body_spec _ (gfix_pres g) _ _ _ _ _ _ _ W (seen_ok_nil s) H1) as (X & Y & _ & _ & Z).
   destruct (Z eq_refl) as [Z1 Z2]. auto.
 Qed.
 
@@ -1327,7 +1641,7 @@ Qed.
 Theorem head_stable {A} (m : M A) s a s' i h :
   pres m -> wf s -> m s = Ok (a, s') -> head s i = Some h -> is_unknown h = false ->
   exists h', head s' i = Some h' /\ same_shape h h' = true.
-Proof. intros P W H Hh U. destruct (P _ _ _ W H) as [_ (_ & _ & _ & E4)]. eauto. Qed.
+Proof. intros P W H Hh U. destruct (P _ _ _ W H) as [_ (_ & _ & _ & E4 & _)]. eauto. Qed.
 
 (* declared blob / enum nodes keep their field / variant sets *)
 Definition same_keys (f g : fieldmap) : Prop := forall k, In k (keys f) <-> In k (keys g).
@@ -1372,7 +1686,7 @@ Ltac prs1 :=
   | |- pres (is_type_name _) => apply pres_is_type_name
   | |- pres (var_ty _ _) => apply pres_var_ty
   | |- pres (var_kind _ _) => apply pres_var_kind
-  | P : gpres ?G |- pres (g_unify ?G _ _ _ _) => apply (gp_unify G P)
+  | P : gpres ?G |- pres (g_unify ?G _ _ _ []) => apply (gp_unify0 G P)
   | P : gpres ?G |- pres (g_check ?G _ _) => apply (gp_check G P)
   | P : gpres ?G |- pres (g_arith ?G _ _ _ _) => apply (gp_arith G P)
   | P : gpres ?G |- pres (g_div ?G _ _ _) => apply (gp_div G P)
